@@ -232,8 +232,16 @@ def scalars(db, ctx):
     ctx.ob("Lattice::reset|eos=None", none_eos, "eos is reset to None: %s" % none_eos, fn=lr)
     bos = any(is_call(c) and path_ends(callee(c), "connect_bos") for c, _ in walk(lr.hir))
     ctx.ob("Lattice::reset|bos", bos, "BOS is re-inserted by reset (connect_bos): %s" % bos, fn=lr)
-    rows = [render(call_args(c)[0]) for c, _ in walk(lr.hir) if is_call(c) and path_ends(callee(c), "reset_vec")]
-    ctx.ob("Lattice::reset|all-rows", sorted(rows) == ["&mut self.ends", "&mut self.ends_full", "&mut self.indices"], "reset_vec is applied to %s" % rows, fn=lr)
+    summ = param_summaries(db)
+    rows = []
+    for c, _ in walk(lr.hir):
+        if is_call(c) and callee(c) in summ:
+            for i, a in enumerate(call_args(c)):
+                if "kill" in (summ[callee(c)].get(i) or []):
+                    r, _row = root(a)
+                    if r and r[0] == "field":
+                        rows.append(r[2])
+    ctx.ob("Lattice::reset|all-rows", sorted(rows) == ["ends", "ends_full", "indices"], "Lattice::reset hands %s to a helper that clears every row (must be ends, ends_full, indices)" % sorted(rows), fn=lr)
     for nm in ("reset", "start_build", "build"):
         f = db.one(nm, "InputBuffer")
         ok = any(n.get("k") == "Assign" and peel(n["l"]).get("name") == "state" for n, _ in walk(f.hir))
